@@ -20,8 +20,6 @@ pub open spec fn spec_reg_packet(ty: u16, id: Seq<u8>) -> Seq<u8> {
     ensures r@ == spec_reg_packet(0x9200u16, id@) { unimplemented!() }
 #[verifier::external_body] pub fn create_reg2_packet_(id: &[u8; 256]) -> (r: [u8; 258])
     ensures r@ == spec_reg_packet(0x9201u16, id@) { unimplemented!() }
-pub uninterp spec fn spec_packet_type(buf: Seq<u8>) -> Option<u16>;
-#[verifier::external_body] pub fn get_packet_type(buf: &[u8]) -> (r: Option<u16>) ensures r == spec_packet_type(buf@) { unimplemented!() }
 
 // `dst.copy_from_slice(&src[a..b])`: panics unless the lengths agree -> precondition (a real obligation at the call site)
 #[verifier::external_body]
@@ -66,7 +64,12 @@ NOW = 'now < CLOCK_MAX'
 
 
 def build():
-    u = world.build('reg', active=[])
+    u = world.build('reg', active=['reg'])
+    add_reg(u)
+    return u
+
+
+def add_reg(u):
     u.add(u.item(PB, 'enum', 'ProbingState'))
     u.add(u.item(PB, 'struct', 'ProbeResult'))
     u.add(u.item(R, 'enum', 'RegistrationEvent'))
@@ -76,7 +79,7 @@ def build():
     fns = []
     F = fns.append
     ID_SAME = 'final(self).srtla_id == old(self).srtla_id'
-    F(u.fn(R, 'build_reg1_for', impl='SrtlaRegistrationManager', ret='r', requires=[NOW], ensures=[
+    F(u.fn(R, 'build_reg1_for', impl='SrtlaRegistrationManager', sub='reg', ret='r', requires=[NOW], ensures=[
         C('C07.reg.build_reg1_for.carries_adopted_id', 'r@ == spec_reg_packet(0x9200u16, old(self).srtla_id@)'),
         C('C07.reg.build_reg1_for.marks_this_uplink_outstanding', 'final(self).pending_reg2_idx == Some(conn_idx)'),
         C('C07.reg.build_reg1_for.deadline_4s_after_send', 'final(self).pending_timeout_at_ms == now + 4000'),
@@ -84,9 +87,9 @@ def build():
         'final(self).active_connections == old(self).active_connections', 'final(self).broadcast_reg2_pending == old(self).broadcast_reg2_pending',
         'final(self).has_connected == old(self).has_connected', 'final(self).probing_state == old(self).probing_state',
     ]))
-    F(u.fn(R, 'build_reg2', impl='SrtlaRegistrationManager', ret='r', post_rewrite=[('create_reg2_packet(', 'create_reg2_packet_(', 1)], ensures=[
+    F(u.fn(R, 'build_reg2', impl='SrtlaRegistrationManager', sub='reg', ret='r', post_rewrite=[('create_reg2_packet(', 'create_reg2_packet_(', 1)], ensures=[
         C('C07.reg.build_reg2.carries_adopted_id', 'r@ == spec_reg_packet(0x9201u16, self.srtla_id@)')]))
-    F(u.fn(R, 'process_registration_packet', impl='SrtlaRegistrationManager', ret='r', requires=['now_ms < CLOCK_MAX'], ensures=[
+    F(u.fn(R, 'process_registration_packet', impl='SrtlaRegistrationManager', sub='reg', ret='r', requires=['now_ms < CLOCK_MAX'], ensures=[
         C('C07.reg.dispatch.event_exactly_for_the_four_handshake_types',
           '''(r is Some) == (spec_packet_type(buf@) == Some(0x9211u16) || spec_packet_type(buf@) == Some(0x9201u16) || spec_packet_type(buf@) == Some(0x9202u16) || spec_packet_type(buf@) == Some(0x9210u16))
             && (r is Some ==> ((r.unwrap() is RegNgp) == (spec_packet_type(buf@) == Some(0x9211u16)) && (r.unwrap() is Reg2) == (spec_packet_type(buf@) == Some(0x9201u16))
@@ -101,7 +104,7 @@ def build():
             && spec_packet_type(buf@) == Some(0x9201u16) && old(self).pending_reg2_idx == Some(conn_idx) && buf.len() >= 258'''),
         C('C07.reg.dispatch.non_handshake_packet_changes_nothing', 'r is None ==> *final(self) == *old(self)'),
     ]))
-    F(u.fn(R, 'reg_driver_pending_sends', impl='SrtlaRegistrationManager', ret='sends', requires=[NOW],
+    F(u.fn(R, 'reg_driver_pending_sends', impl='SrtlaRegistrationManager', sub='reg', ret='sends', requires=[NOW],
            post_rewrite=[('RegDriverSends::default()', 'reg_driver_sends_default()', 1), ('create_reg2_packet(', 'create_reg2_packet_(', 1)],
            ensures=[
         C('C07.reg.driver.reg1_only_while_no_uplink_registered_and_none_outstanding',
@@ -115,14 +118,14 @@ def build():
         C('C07.reg.driver.reg2_carries_adopted_id', 'sends.broadcast_reg2 is Some ==> sends.broadcast_reg2.unwrap()@ == spec_reg_packet(0x9201u16, old(self).srtla_id@)'),
         ID_SAME, 'final(self).active_connections == old(self).active_connections', 'final(self).reg1_target_idx == old(self).reg1_target_idx',
     ]))
-    F(u.fn(R, 'handle_reg_ngp', impl='SrtlaRegistrationManager', ensures=[
+    F(u.fn(R, 'handle_reg_ngp', impl='SrtlaRegistrationManager', sub='reg', ensures=[
         C('C07.reg.handle_reg_ngp.never_makes_a_reg1_outstanding', 'final(self).pending_reg2_idx == old(self).pending_reg2_idx && final(self).pending_timeout_at_ms == old(self).pending_timeout_at_ms'),
         ID_SAME, 'final(self).broadcast_reg2_pending == old(self).broadcast_reg2_pending', 'final(self).active_connections == old(self).active_connections',
         'final(self).has_connected == old(self).has_connected',
         C('C07.reg.handle_reg_ngp.target_only_while_idle', '''final(self).reg1_target_idx != old(self).reg1_target_idx ==> old(self).active_connections == 0 && old(self).pending_reg2_idx is None
             && final(self).reg1_target_idx == Some(conn_idx) && final(self).reg1_next_send_at_ms == now_ms'''),
     ]))
-    F(u.fn(R, 'handle_reg2', impl='SrtlaRegistrationManager', requires=['now_ms < CLOCK_MAX'],
+    F(u.fn(R, 'handle_reg2', impl='SrtlaRegistrationManager', sub='reg', requires=['now_ms < CLOCK_MAX'],
            post_rewrite=[('self.srtla_id.copy_from_slice(&buf[2..2 + SRTLA_ID_LEN]);', 'copy_from_slice_range(&mut self.srtla_id, buf, 2, 2 + SRTLA_ID_LEN);', 1)],
            ensures=[
         C('C07.reg.handle_reg2.rejects_short_or_wrong_uplink', '(buf.len() < 258 || old(self).pending_reg2_idx != Some(conn_idx)) ==> *final(self) == *old(self)'),
@@ -131,14 +134,14 @@ def build():
         'final(self).active_connections == old(self).active_connections', 'final(self).has_connected == old(self).has_connected',
         'final(self).probing_state == old(self).probing_state',
     ]))
-    F(u.fn(R, 'handle_reg3', impl='SrtlaRegistrationManager', ensures=[
+    F(u.fn(R, 'handle_reg3', impl='SrtlaRegistrationManager', sub='reg', ensures=[
         C('C07.reg.handle_reg3.frame', '*final(self) == (SrtlaRegistrationManager { has_connected: true, ..*old(self) })')]))
-    F(u.fn(R, 'handle_reg_err', impl='SrtlaRegistrationManager', requires=['now_ms < CLOCK_MAX'], ensures=[
+    F(u.fn(R, 'handle_reg_err', impl='SrtlaRegistrationManager', sub='reg', requires=['now_ms < CLOCK_MAX'], ensures=[
         C('C07.reg.handle_reg_err.cancels_pending', 'final(self).pending_reg2_idx is None && final(self).pending_timeout_at_ms == 0 && final(self).reg1_target_idx is None'),
         'final(self).reg1_next_send_at_ms == now_ms + 4000', ID_SAME, 'final(self).broadcast_reg2_pending == old(self).broadcast_reg2_pending',
         'final(self).active_connections == old(self).active_connections', 'final(self).has_connected == old(self).has_connected',
     ]))
-    F(u.fn(R, 'reg1_if_ngp_immediate', impl='SrtlaRegistrationManager', ret='r', requires=[NOW], ensures=[
+    F(u.fn(R, 'reg1_if_ngp_immediate', impl='SrtlaRegistrationManager', sub='reg', ret='r', requires=[NOW], ensures=[
         C('C07.reg.immediate.reg1_only_while_no_uplink_registered_and_none_outstanding',
           'r is Some ==> old(self).active_connections == 0 && old(self).pending_reg2_idx is None && old(self).reg1_target_idx == Some(conn_idx)'),
         C('C07.reg.immediate.reg1_marks_uplink_outstanding_with_4s_deadline', 'r is Some ==> final(self).pending_reg2_idx == Some(conn_idx) && final(self).pending_timeout_at_ms == now + 4000'),
@@ -146,8 +149,8 @@ def build():
         C('C07.reg.immediate.silent_means_unchanged', 'r is None ==> *final(self) == *old(self)'),
         ID_SAME,
     ]))
-    F(u.fn(R, 'pending_reg2_idx', impl='SrtlaRegistrationManager', ret='r', ensures=['r == self.pending_reg2_idx']))
-    F(u.fn(R, 'clear_pending_if_timed_out', impl='SrtlaRegistrationManager', ret='r', ensures=[
+    F(u.fn(R, 'pending_reg2_idx', impl='SrtlaRegistrationManager', sub='reg', ret='r', ensures=['r == self.pending_reg2_idx']))
+    F(u.fn(R, 'clear_pending_if_timed_out', impl='SrtlaRegistrationManager', sub='reg', ret='r', ensures=[
         C('C07.reg.clear_pending.abandons_exactly_when_deadline_passed',
           '''(r is Some) == (old(self).pending_reg2_idx is Some && old(self).pending_timeout_at_ms != 0 && now_ms_value >= old(self).pending_timeout_at_ms)
             && (r is Some ==> r == old(self).pending_reg2_idx && final(self).pending_reg2_idx is None && final(self).pending_timeout_at_ms == 0
@@ -155,8 +158,8 @@ def build():
         C('C07.reg.clear_pending.otherwise_unchanged', 'r is None ==> *final(self) == *old(self)'),
         ID_SAME, 'final(self).broadcast_reg2_pending == old(self).broadcast_reg2_pending', 'final(self).active_connections == old(self).active_connections',
     ]))
-    F(u.fn(R, 'get_selected_connection_idx', impl='SrtlaRegistrationManager', ret='r', ensures=['r == self.reg1_target_idx']))
-    F(u.fn(PB, 'is_probing', impl='SrtlaRegistrationManager', ret='r', ensures=['r == (self.probing_state is Probing || self.probing_state is WaitingForProbes)']))
+    F(u.fn(R, 'get_selected_connection_idx', impl='SrtlaRegistrationManager', sub='reg', ret='r', ensures=['r == self.reg1_target_idx']))
+    F(u.fn(PB, 'is_probing', impl='SrtlaRegistrationManager', sub='reg', ret='r', ensures=['r == (self.probing_state is Probing || self.probing_state is WaitingForProbes)']))
     u.add(impl_block('SrtlaRegistrationManager', fns))
 
     # [L] deadline lemma: between the send of REG1 and its abandonment lie exactly 4 s (over the contracts above)
@@ -167,4 +170,3 @@ pub proof fn lemma_reg1_abandoned_after_4s(m: SrtlaRegistrationManager, t: u64, 
     ensures (now >= t + 4000) == (m.pending_reg2_idx is Some && m.pending_timeout_at_ms != 0 && now >= m.pending_timeout_at_ms),  // @ob C07.reg.lemma.unanswered_reg1_abandoned_after_4s
 { }
 ''')
-    return u
